@@ -116,14 +116,14 @@ def _extract_locked(cmds, cdir, key):
                     errs.append((tu, msg))
         if errs:
             raise AnalysisBroken('extractor failed on %d TU(s): %s\n%s' % (len(errs), errs[0][0], errs[0][1]))
-    # prune old cache generations: keep the 6 newest, and never one that was used in the last 30 minutes (it may
+    # prune old cache generations: keep the 3 newest, and never one that was used in the last 30 minutes (it may
     # belong to a check that is running concurrently on another tree)
     try:
         import time
         os.utime(cdir, None)
         gens = sorted((os.path.getmtime(os.path.join(CACHE, d)), d) for d in os.listdir(CACHE)
                       if os.path.isdir(os.path.join(CACHE, d)))
-        for mt, d in gens[:-6]:
+        for mt, d in gens[:-3]:
             if d != key and time.time() - mt > 1800:
                 shutil.rmtree(os.path.join(CACHE, d), ignore_errors=True)
                 try:
